@@ -580,6 +580,67 @@ theorem step_unplanUnits {s : CState} {p : Nat} {bits : List Bool}
     · exact Inv.unplanAll hU h0 k1 hk a1 a2 a3
     · intro x hx; exact Or.inl ((a2 x).mp hx).1
 
+/-- an accepted un-plan was asked to be accepted -/
+theorem unplanStops_result_true {s : CState} {m : Nat} {b : Bool} (h : (unplanStops U s m b).2 = true) : b = true := by
+  unfold unplanStops at h
+  cases b with
+  | true => rfl
+  | false => split at h <;> simp_all
+
+/-- whatever the remaining flags say, a member-by-member un-plan that went through is the one with all flags `true` -/
+theorem unplanMembers_true_bits {p : Nat} :
+    ∀ (rest : List Nat) (bits : List Bool) (s s' : CState), unplanMembers U p s rest bits = some s' →
+      unplanMembers U p s rest (bits.map (fun _ => true)) = some s' := by
+  intro rest
+  induction rest with
+  | nil => intro bits s s' h; simpa [unplanMembers] using h
+  | cons m rest ih =>
+    intro bits s s' h
+    unfold unplanMembers at h ⊢
+    by_cases hc : isPlanned U s m = true
+    · simp only [hc, if_true] at h ⊢
+      cases bits with
+      | nil => simpa using h
+      | cons b bt =>
+        cases b with
+        | true =>
+          simp only [List.headD_cons, List.tail_cons, List.map_cons] at h ⊢
+          cases hx : (unplanStops U s m true).2 with
+          | true => simp only [hx, if_true] at h ⊢; exact ih bt _ s' h
+          | false => simp [hx] at h
+        | false =>
+          simp only [List.headD_cons, List.tail_cons] at h
+          have hr : (unplanStops U s m false).2 = false := by
+            cases hx : (unplanStops U s m false).2 with
+            | false => rfl
+            | true => exact absurd (unplanStops_result_true hx) (by decide)
+          simp [hr] at h
+    · have hc' : isPlanned U s m = false := by simpa using hc
+      simp only [hc', Bool.false_eq_true, if_false] at h ⊢
+      exact ih bits s s' h
+
+theorem all_true_map (bits : List Bool) : (bits.map (fun _ => true)).all id = true := by
+  induction bits <;> simp_all
+
+/-- `step_unplanUnits` for EVERY pattern of accepted / rejected member un-plans (the repaired un-plan of a plan-all unit). -/
+theorem step_unplanUnits_any {s : CState} {p : Nat} {bits : List Bool}
+    {members : List Nat} (hU : WFUnits U = true) (h0 : Inv U s)
+    (hk : kindOf U p = .all members) :
+    StepOut U s (unplanUnits U s p bits) none True := by
+  have key : unplanUnits U s p bits = (s, false) ∨
+      unplanUnits U s p bits = unplanUnits U s p (bits.map (fun _ => true)) := by
+    unfold unplanUnits
+    by_cases he : (!(isPlanned U s p) || isFixed U p) = true
+    · left; simp only [he, if_true]
+    · simp only [he, Bool.false_eq_true, if_false, hk]
+      cases hm : unplanMembers U p { s with planned := rem s.planned p, unplanned := add s.unplanned p }
+          (membersOf U p) bits with
+      | none => left; rfl
+      | some s' => right; rw [unplanMembers_true_bits _ _ _ _ hm]
+  rcases key with h | h
+  · rw [h]; exact ⟨h0, fun _ _ => SameSets.rfl', fun x hx => Or.inl hx⟩
+  · rw [h]; exact step_unplanUnits hU h0 hk (all_true_map bits)
+
 /-! ### from the invariant to `BooksOK` -/
 
 /-- nothing listed planned is a plan-all unit without members -/
@@ -731,8 +792,7 @@ theorem step_good {s : CState} {op : COp} (hU : WFUnits U = true) (h0 : Inv U s)
     | stops => simp [GoodOp, hk] at hg
     | oneOf _ => simp [GoodOp, hk] at hg
     | all members =>
-      simp only [GoodOp, hk, Bool.true_and] at hg
-      obtain ⟨a, b, c⟩ := step_unplanUnits hU h0 hk hg
+      obtain ⟨a, b, c⟩ := step_unplanUnits_any (bits := bits) hU h0 hk
       refine ⟨a, fun h _ => b h trivial, fun _ hne x hx => ?_⟩
       rcases c x hx with h | h
       · exact hne x h
